@@ -47,13 +47,20 @@ def _range_at(ctx, fn, node, var):
 
 
 def _result(fn, contains):
+    """The statement that builds the function's result: `result = <expr>` ... `return result`, or `return <expr>`."""
     for a in own_nodes(fn):
-        if isinstance(a, ast.Assign) and norm(a.targets[0]) == 'result' and contains in norm(a.value):
+        if isinstance(a, ast.Assign) and isinstance(a.targets[0], ast.Name) and contains in norm(a.value) \
+                and any(isinstance(r, ast.Return) and norm(r.value) == a.targets[0].id for r in own_nodes(fn)):
+            return a
+        if isinstance(a, ast.Return) and a.value is not None and contains in norm(a.value):
             return a
     return None
 
 
 def check(ctx, rep):
+    from . import c10 as _c10, _share as _sh
+    _sh.share(ctx, rep, _c10, ('roots.registration-released-on-every-exit', 'roots.argument-read-after-collection'),
+              'a string function or MID$ statement has no effect beyond its result: its argument is a collector root exactly while the function runs')
     # LEFT$, RIGHT$
     for name, sl in (('left_', 's.to_str()[:stop]'), ('right_', 's.to_str()[-stop:]')):
         fn = ctx.fn('%s:StringFunctions.%s' % (V, name))
@@ -83,6 +90,11 @@ def check(ctx, rep):
         rep.ob('range.argument', 'mid_: count within 0..255', b2.hi() == 255 and b2.lo() in (0, 1), b2.describe(), ctx.where(sub[0]))
     e = [x for x in own_nodes(fn) if isinstance(x, ast.Return) and norm(x.value) == 's.new()']
     rep.ob('slice.empty-cases', 'mid_: count 0 or start beyond the end give the empty string', len(e) == 1 and fl.knows(e[0], 'num == 0 or start > length', True), '', ctx.where(fn))
+    for x in e:
+        b1 = bounds(ctx, fl.facts(x), 'start')
+        b2 = bounds(ctx, fl.facts(x), 'num')
+        rep.ob('range.argument', 'mid_: the empty result too is given only for start within 1..255 and count within 0..255',
+               (b1.lo(), b1.hi()) == (1, 255) and (b2.lo(), b2.hi()) == (0, 255), 'start %s; count %s: an out-of-range argument returns "" instead of Illegal function call' % (b1.describe(), b2.describe()), ctx.where(x))
     # INSTR
     fn = ctx.fn(V + ':StringFunctions.instr_')
     fl = ctx.flow(fn)
@@ -94,7 +106,7 @@ def check(ctx, rep):
         rep.ob('range.argument', 'instr_: start within 1..255', False, 'start branch not found', ctx.where(fn))
     fd = [a for a in own_nodes(fn) if isinstance(a, ast.Assign) and norm(a.targets[0]) == 'find']
     rep.ob('slice.reference', 'instr_ searches big[start-1:] and reports start + find', len(fd) == 1 and norm(fd[0].value) == 'big[start - 1:].find(small)' and
-           any(norm(a.value) == 'new_int.from_int(start + find)' for a in own_nodes(fn) if isinstance(a, ast.Assign)), '', ctx.where(fn))
+           any(norm(a.value) == 'new_int.from_int(start + find)' for a in own_nodes(fn) if isinstance(a, (ast.Assign, ast.Return)) and a.value is not None), '', ctx.where(fn))
     z = [x for x in own_nodes(fn) if isinstance(x, ast.Return) and norm(x.value) == 'new_int']
     conds = sorted(t for x in z for t in [f.text for f in fl.facts(x) if f.pol and (f.text.startswith('big ==') or f.text.startswith('find =='))])
     rep.ob('slice.empty-cases', 'instr_: 0 for an empty haystack, start beyond the end, or no match', conds == ["big == b'' or start > len(big)", 'find == -1'], repr(conds), ctx.where(fn))
@@ -205,6 +217,7 @@ def variants(ctx):
         Va('left-range-256', 'break', V, in_fn('StringFunctions.left_', lambda fn: mu.replace_expr(fn, mu.text_is('error.range_check(0, 255, stop)'), 'error.range_check(0, 256, stop)')), expect='range.argument'),
         Va('right-no-zero-case', 'break', V, in_fn('StringFunctions.right_', lambda fn: mu.remove_stmt(fn, lambda st: isinstance(st, ast.If) and norm(st.test) == 'stop == 0')), expect='slice.zero'),
         Va('mid-start-0-allowed', 'break', V, in_fn('StringFunctions.mid_', lambda fn: mu.replace_expr(fn, mu.text_is('error.range_check(1, 255, start)'), 'error.range_check(0, 255, start)')), expect='range.argument'),
+        Va('mid-empty-result-before-range-checks', 'break', V, in_fn('StringFunctions.mid_', _checks_after_empty), expect='range.argument'),
         Va('mid-off-by-one', 'break', V, in_fn('StringFunctions.mid_', lambda fn: mu.remove_stmt(fn, mu.text_is('start -= 1'))), expect='slice.reference'),
         Va('instr-no-range', 'break', V, in_fn('StringFunctions.instr_', lambda fn: mu.remove_stmt(fn, mu.text_is('error.range_check(1, 255, start)'))), expect='range.argument'),
         Va('chr-negative', 'break', V, in_fn('chr_', lambda fn: mu.replace_expr(fn, mu.text_is('error.range_check(0, 255, val)'), 'error.throw_if(val > 255)')), expect='range.argument'),
@@ -215,3 +228,16 @@ def variants(ctx):
         Va('space-error-code', 'break', ST, in_fn('String.space', lambda fn: mu.replace_stmt(fn, mu.text_is('error.range_check(0, 255, num)'), 'error.range_check_err(0, 255, num, error.OVERFLOW)')), expect='range.error'),
         Va('neutral', 'neutral', ST, in_fn('String.gt', lambda fn: mu.insert_first(fn, 'pass'))),
     ]
+
+
+def _checks_after_empty(fn):
+    """Move the two range checks of mid_ below the early return of the empty string."""
+    checks = [st for st in fn.body if isinstance(st, ast.Expr) and norm(st.value).startswith('error.range_check(')]
+    early = [st for st in fn.body if isinstance(st, ast.If) and norm(st.test) == 'num == 0 or start > length']
+    if len(checks) != 2 or len(early) != 1:
+        return False
+    for c in checks:
+        fn.body.remove(c)
+    i = fn.body.index(early[0])
+    fn.body[i + 1:i + 1] = checks
+    return True
